@@ -119,6 +119,9 @@ func (e *NetEcho) handle(c context.Context, ctx *app.RequestContext) {
 	ctx.SetStatusCode(200)
 	ctx.Response.Header.Set("X-Echo-Index", fmt.Sprint(idx))
 	ctx.SetBodyString(fmt.Sprintf("idx=%d;method=%s;uri=%s;bodylen=%d", idx, o.Method, o.URI, len(o.Body)))
+	if e.Cfg.AfterEcho != nil {
+		e.Cfg.AfterEcho(c, ctx)
+	}
 }
 
 // ErrNetTimeout marks a run that did not finish within its deadline (inconclusive, not a verdict).
